@@ -385,7 +385,7 @@ def run(ctx):
                 ctx.check(not spins, 'C12.R6', '%s|loop@%s' % (qn, short(s.test if isinstance(s, ast.While) else s.iter, 50)), lsite,
                           'every iteration consumes input from %s' % (stream or 'the stream'),
                           'a decoder loop iteration can complete without consuming input (unbounded work / hang on crafted input)')
-    ctx.count('decoder_loops', n_loops, 39)
+    ctx.count('decoder_loops', n_loops, 30)
     ctx.analysed['in_memory_bounded_loops_skipped'] = n_skipped
     ut = src.tree(UTILS)
     bs = get_class(ut, 'BytearrayStream')
@@ -400,6 +400,54 @@ def run(ctx):
     okbs = len(take) == 1 and len(adv) == 1 and any(isinstance(r.value, ast.Name) and r.value.id == take[0].targets[0].id for r in rets)
     ctx.check(okbs, 'C12.R6', 'BytearrayStream.read|slice-and-advance', usite, 'read(n) returns buffer[0:n] and advances the buffer by n',
               'BytearrayStream.read does not return the first n bytes and advance by n')
+    # ---------------- R7 short reads of primitive values are detected
+    ctx.rule('C12.R7', 'in the primitive decoders every stream.read(n) result is checked for shortness: it is unpacked by struct (exact size), indexed ([0] on a one-byte read), or its len() is compared in a test that raises; otherwise a truncated or over-long length field decodes into a value shorter than its length field says (BytearrayStream.read clips silently)')
+    PRIM = 'kmip/core/primitives.py'
+    pt = src.tree(PRIM)
+    n_reads = 0
+    for qn, fn, cls in all_functions(pt):
+        ps = [a.arg for a in fn.args.args]
+        streams = set(x for x in ps if x in ('istream', 'stream', 'input_stream', 'input_buffer'))
+        if not streams or cls is None:
+            continue
+        for c in walk_local(fn):
+            if not (isinstance(c, ast.Call) and isinstance(c.func, ast.Attribute) and c.func.attr == 'read' and isinstance(c.func.value, ast.Name) and c.func.value.id in streams and c.args):
+                continue
+            n_reads += 1
+            site = '%s:%s %s' % (PRIM, c.lineno, qn)
+            par = c._parent
+            how = None
+            # walk outwards through bytes()/slices/concatenation to the consumer
+            cur = c
+            while True:
+                par = cur._parent
+                if isinstance(par, ast.Call) and (call_name(par) or '').split('.')[-1] == 'unpack' and cur in par.args:
+                    how = 'unpacked'
+                    break
+                if isinstance(par, ast.Subscript) and par.value is cur and not isinstance(par.slice, ast.Slice):
+                    how = 'indexed'
+                    break
+                if isinstance(par, ast.BinOp) or (isinstance(par, ast.Subscript) and par.value is cur) or (isinstance(par, ast.Call) and call_name(par) in ('bytes', 'bytearray') and cur in par.args):
+                    cur = par
+                    continue
+                break
+            if how is None and isinstance(par, ast.Assign) and len(par.targets) == 1 and isinstance(par.targets[0], ast.Name):
+                v = par.targets[0].id
+                for x in walk_local(fn):
+                    if isinstance(x, ast.Call) and (call_name(x) or '').split('.')[-1] == 'unpack' and any(isinstance(y, ast.Name) and y.id == v for a in x.args for y in ast.walk(a)):
+                        how = 'unpacked via %s' % v
+                    if isinstance(x, ast.Call) and call_name(x) == 'len' and x.args and isinstance(x.args[0], ast.Name) and x.args[0].id == v:
+                        # len(v) itself compared, or assigned to a name that is compared, in an if that raises
+                        names = {None}
+                        if isinstance(x._parent, ast.Assign) and isinstance(x._parent.targets[0], ast.Name):
+                            names = {x._parent.targets[0].id}
+                        for iff in walk_local(fn):
+                            if isinstance(iff, ast.If) and any(isinstance(r, ast.Raise) for r in iff.body) and (
+                                    any(y is x for y in ast.walk(iff.test)) or any(isinstance(y, ast.Name) and y.id in names for y in ast.walk(iff.test))):
+                                how = 'length of %s checked' % v
+            ctx.check(how is not None, 'C12.R7', '%s|read(%s)' % (qn, U(c.args[0])), site, 'short read detected: %s' % how,
+                      'the result of %s is used without any check of its size: BytearrayStream.read returns fewer bytes than asked for when the length field overruns the data, so the value decodes shorter than its declared length instead of the request being refused' % U(c))
+    ctx.count('primitive_stream_reads', n_reads, 15)
     ctx.not_decided += ['that no byte string makes response.write itself fail (then no response is sent; run() logs and continues)',
                         'decoder work bounds beyond per-iteration consumption; recursion depth of nested structures']
     ctx.assumptions += ['struct.unpack raises on a short buffer', 'socket.recv(n) returns at most n bytes']
